@@ -25,6 +25,9 @@ pub struct Case {
 	pub fee_bump: u8,
 	/// also push payments C → B → A (outbound dust on A–B, inbound on B–C)
 	pub both_ways: bool,
+	/// false: `MaxDustHTLCExposure::FixedLimitMsat(limit_msat)`; true: `FeeRateMultiplier(limit_msat / 253)` – the
+	/// limit then follows B's *own* fee estimate (253 sat/kW unless B itself raises it), never what a peer proposes
+	pub multiplier: bool,
 }
 
 const DUST_LIMIT_SAT: u64 = 354;
@@ -81,7 +84,11 @@ pub fn run_case(c: &Case) -> Result<Outcome, (String, String)> {
 	let mut cfgs = vec![user_config(c.ct), user_config(c.ct), user_config(c.ct)];
 	for (i, u) in cfgs.iter_mut().enumerate() {
 		// only B's limit is under test; its peers accept anything
-		u.channel_config.max_dust_htlc_exposure = MaxDustHTLCExposure::FixedLimitMsat(if i == 1 { c.limit_msat } else { 10_000_000_000 });
+		u.channel_config.max_dust_htlc_exposure = if i == 1 && c.multiplier {
+			MaxDustHTLCExposure::FeeRateMultiplier(c.limit_msat / 253)
+		} else {
+			MaxDustHTLCExposure::FixedLimitMsat(if i == 1 { c.limit_msat } else { 10_000_000_000 })
+		};
 	}
 	let mut w = World::new(cfgs, 253);
 	let ab = w.open_channel(0, 1, 1_000_000, 400_000_000);
@@ -93,13 +100,15 @@ pub fn run_case(c: &Case) -> Result<Outcome, (String, String)> {
 	let funds_before = crate::oracles::offchain_funds_msat(&w, 1).0;
 	let mut max_seen = 0u64;
 	let check = |w: &World, when: &str, max_seen: &mut u64| -> Result<(), (String, String)> {
+		// the configured limit: fixed, or B's own current fee estimate times the multiplier
+		let limit_msat = if c.multiplier { (*w.nodes[1].fee.sat_per_kw.lock().unwrap() as u64) * (c.limit_msat / 253) } else { c.limit_msat };
 		for (name, cid) in [("A-B", &ab), ("B-C", &bc)] {
 			if let Some((h, cp, n)) = dust_sums(w, 1, cid, c.ct) {
 				*max_seen = (*max_seen).max(h).max(cp);
-				if h > c.limit_msat || cp > c.limit_msat {
+				if h > limit_msat || cp > limit_msat {
 					return Err((
 						"dust-exposure-above-limit".to_string(),
-						format!("{}: on channel {} B has {} pending HTLCs of which {} msat (own commitment) / {} msat (peer's commitment) have no output; configured limit {} msat", when, name, n, h, cp, c.limit_msat),
+						format!("{}: on channel {} B has {} pending HTLCs of which {} msat (own commitment) / {} msat (peer's commitment) have no output; configured limit {} msat{}", when, name, n, h, cp, limit_msat, if c.multiplier { " (fee-rate multiplier x B's own estimate)" } else { "" }),
 					));
 				}
 			}
@@ -169,7 +178,12 @@ pub fn cases(thorough: bool) -> Vec<Case> {
 						continue;
 					}
 					for both_ways in [false, true] {
-						v.push(Case { ct, limit_msat, amount_msat, fee_bump, both_ways });
+						v.push(Case { ct, limit_msat, amount_msat, fee_bump, both_ways, multiplier: false });
+						// the default policy (limit = multiplier x own fee estimate): pre-anchor channels, where a feerate
+						// change moves the dust threshold
+						if ct == Ct::Static && (thorough || (limit_msat == 1_000_000 && amount_msat >= 450_000)) {
+							v.push(Case { ct, limit_msat, amount_msat, fee_bump, both_ways, multiplier: true });
+						}
 					}
 				}
 			}
